@@ -63,7 +63,8 @@ def r_isosteric_wrapper(ctx: Ctx, model, prop="C19"):
     for j in range(3):
         kind = f"IsoT{j}"
         I.libmeth[(kind, "pressure_at")] = (lambda j: lambda I, v, a, k, n: (acc_calls.append((j, "pressure_at", dict(k))), Vec([S(f"pa{j}"), S(f"pb{j}")]))[1])(j)
-        I.libmeth[(kind, "loading")] = (lambda j: lambda I, v, a, k, n: (acc_calls.append((j, "loading", dict(k))), Vec([S(f"la{j}"), S(f"lb{j}")]))[1])(j)
+        # concrete, overlapping loading ranges (the default loading grid takes minima / maxima over the isotherms)
+        I.libmeth[(kind, "loading")] = (lambda j: lambda I, v, a, k, n: (acc_calls.append((j, "loading", dict(k))), Vec([sp.Integer(1 + j), sp.Integer(7 + j)]))[1])(j)
     # the three isotherms are stored in three different representations (same bases, as the function requires)
     reps = [("absolute", "bar", "mmol", "g"), ("absolute", "Pa", "mol", "kg"), ("relative", None, "mmol", "mg")]
     isos = [Obj(kind=f"IsoT{j}", label=f"iso{j}", attrs={"temperature": temps[j], "material": "M", "loading_basis": "molar", "material_basis": "mass",
@@ -79,6 +80,14 @@ def r_isosteric_wrapper(ctx: Ctx, model, prop="C19"):
     I.ext["numpy.asarray"] = np_array
     I.libattr[("Mat", "T")] = lambda I, v, n: Obj(kind="MatT", attrs={"cols": v.attrs["rows"]})
     I.libmeth[("Mat", "transpose")] = lambda I, v, a, k, n: Obj(kind="MatT", attrs={"cols": v.attrs["rows"]})
+    I.ext["numpy.linspace"] = lambda I, a, k, n: Vec([a[0], a[1]])
+    # first without loading_points (the common loading range is derived from every isotherm's loadings), then with explicit points
+    outs0 = I.explore(lambda I: I.call_func(fi, [list(isos)], {"branch": "ads"}, None))
+    n_default = len(acc_calls)
+    ctx.ob(bool(outs0) and all(o.kind == "ok" for o in outs0) and any(a_ == "loading" for _, a_, _ in acc_calls),
+           Finding(f"{prop}.{'E-isosteric' if prop == 'C19' else 'R-pin'}", fi.where, "isosteric_enthalpy|default-loading-range",
+                   f"isosteric_enthalpy without loading_points: outcome {[repr(o)[:80] for o in outs0[:2]]}; the common loading range must be "
+                   "derived from the loadings of every isotherm"), nontrivial_key=("iso", "default-range"))
     outs = I.explore(lambda I: I.call_func(fi, [list(isos)], {"loading_points": Vec([S("n0"), S("n1")]), "branch": "ads"}, None))
     pr, tt = cap.get("pressures"), cap.get("temperatures")
     cols = pr.attrs["cols"] if isinstance(pr, Obj) and pr.kind == "MatT" else None
@@ -175,7 +184,8 @@ def r_whittaker(ctx: Ctx, model):
         iso = lambda: Obj(cls=mi, label="iso", attrs={"model": modelobj, "_adsorbate": ads, "_temperature": S("T"), "temperature_unit": "K",
                                                        "pressure_mode": "absolute", "pressure_unit": "Pa", "loading_basis": "molar", "loading_unit": "mmol",
                                                        "material_basis": "mass", "material_unit": "g", "properties": {}, "branch": "ads", "_material": Obj(kind="Mat")})
-        I.overrides["pygaps.core.modelisotherm.ModelIsotherm.pressure_at"] = lambda I, fi_, env, n_: p_model.subs(n, env["loading"]) if env.get("pressure_unit") == "Pa" else S("WRONG_UNIT")
+        I.overrides["pygaps.core.modelisotherm.ModelIsotherm.pressure_at"] = lambda I, fi_, env, n_: S("WRONG_UNIT") if env.get("pressure_unit") != "Pa" else \
+            Vec([p_model.subs(n, x) for x in env["loading"].items]) if isinstance(env["loading"], Vec) else p_model.subs(n, env["loading"])
         I.ext["numpy.isnan"] = lambda I, a, k, n_: False
         I.ext["builtins.max"] = lambda I, a, k, n_: sp.Max(*a)
         nval = S("nq")
@@ -193,29 +203,73 @@ def r_whittaker(ctx: Ctx, model):
                 ctx.ob(False, Finding("C19.E-whittaker", fi.where, f"whittaker|{mname}|raises:{oc.exc.name}", f"Whittaker({mname}) raises {oc.exc}"))
                 continue
             res = oc.value
-            skipped = [l for l, c in oc.decisions if c == 0 and any(op in l for op in ("<", ">"))]
-            kept = res["enthalpy_sorption"]
+            as_list = lambda v: list(v.items) if isinstance(v, Vec) else list(v)
+            kept = as_list(res["enthalpy_sorption"])
             if kept:
                 nkept += 1
                 verdict, wit = decide_zero(kept[0] - want, symbols_domain={"nq": (sp.Rational(1, 10), sp.Rational(4, 10)), "n_m": (1, 2), "t": (sp.Rational(1, 2), sp.Rational(3, 2))})
-                ctx.ob(verdict == "zero" and not skipped and res["loading"] == [nval],
+                ctx.ob(verdict == "zero" and len(kept) == 1 and as_list(res["loading"]) == [nval],
                        Finding("C19.E-whittaker", fi.where, f"whittaker|{mname}|closed-form",
                                f"Whittaker enthalpy for a {mname} description is {sp.simplify(kept[0])}; the closed form is lambda + h_vap + RT with "
                                f"lambda = RT ln(p_sat/b^(1/t) (theta^t/(1-theta^t))^((t-1)/t)) (witness {wit})"),
                        nontrivial_key=("whittaker", mname, "formula"), sample={"rule": "E-whittaker", "model": mname, "derived": str(kept[0])[:300]})
             else:
-                # skipped: exactly one of the documented conditions holds on this path
-                conds = [l for l, c in oc.decisions if c == 0]
-                ok = len(conds) >= 1 and all(any(x in l for x in ("p_c", "p_sat", "<0", "< 0")) for l in conds[-1:])
-                ctx.ob(ok, Finding("C19.E-whittaker", fi.where, f"whittaker|{mname}|skip-condition:{conds[-1:] }",
-                                   f"a loading is omitted under the condition {conds}: only p nan / p < 0 / p > p_c / p > p_sat may omit a loading"),
-                       nontrivial_key=("whittaker", mname, "skip", tuple(conds)))
+                ctx.ob(as_list(res["loading"]) == [], Finding("C19.E-whittaker", fi.where, f"whittaker|{mname}|omitted-loading-reported",
+                                                               "a loading without an enthalpy is reported"), nontrivial_key=("whittaker", mname, "omit"))
+        # several loadings at once, concrete pressures: which loadings are kept, and that every kept loading is paired with ITS enthalpy
+        ls = [S(f"nq{j}") for j in range(7)]
+        pmap = dict(zip(ls, [sp.Integer(70), sp.Integer(10), sp.Integer(-1), sp.Integer(200), sp.Integer(20), sp.Integer(50), sp.Integer(0)]))      # p_c = 100, p_sat = 50
+        consts = {"p_critical": sp.Integer(100), "saturation_pressure": sp.Integer(50), "p_triple": sp.Integer(15)}
+        I2 = mk(model)
+        for nm_, val in consts.items():
+            I2.libmeth[("AdsW", nm_)] = (lambda val: lambda I, v, a, k, n_: val)(val)
+        I2.libmeth[("AdsW", "t_critical")] = lambda I, v, a, k, n_: S("T_c")
+        I2.libmeth[("AdsW", "enthalpy_vaporisation")] = lambda I, v, a, k, n_: sp.Function("hvap")(k.get("press", a[0] if a else None))
+        I2.libmeth[("AdsW", "__str__")] = lambda I, v, a, k, n_: "ads"
+
+        def p_at(I, fi_, env, n_):
+            if env.get("pressure_unit") != "Pa":
+                return S("WRONG_UNIT")
+            l = env["loading"]
+            return Vec([pmap[x] for x in l.items]) if isinstance(l, Vec) else pmap[l]
+        I2.overrides["pygaps.core.modelisotherm.ModelIsotherm.pressure_at"] = p_at
+        I2.ext["numpy.isnan"] = lambda I, a, k, n_: Vec([False] * len(a[0].items)) if isinstance(a[0], Vec) else False
+        I2.ext["builtins.max"] = lambda I, a, k, n_: sp.Max(*a)
+        I2.ext["builtins.min"] = lambda I, a, k, n_: sp.Min(*a)
+        outs_m = I2.explore(lambda I: I.call_func(fi, [iso()], {"loading": list(ls)}, None))
+        nsc = 0
+        for oc in outs_m:
+            if oc.kind != "ok":
+                ctx.ob(False, Finding("C19.E-whittaker", fi.where, f"whittaker|{mname}|several-loadings-raises:{oc.exc.name}", f"Whittaker({mname}, five loadings) raises {oc.exc}"))
+                continue
+            below_tc = not any("T_c" in l and c == 1 for l, c in oc.decisions if "<" in l) or True
+            res = oc.value
+            psat_used = None
+            keptl = list(res["loading"].items) if isinstance(res["loading"], Vec) else list(res["loading"])
+            enth = list(res["enthalpy_sorption"].items) if isinstance(res["enthalpy_sorption"], Vec) else list(res["enthalpy_sorption"])
+            # T < T_c: p_sat = 50 -> loadings with 0 <= p <= 50 are kept (nq1, nq4); T >= T_c: p_sat = p_c (T/T_c)^2, symbolic -> not inspected
+            if any(isinstance(e, sp.Basic) and e.has(S("T_c")) for e in enth) or any("T_c" in l and c != 0 for l, c in oc.decisions):
+                continue
+            nsc += 1
+            want_kept = [ls[1], ls[4], ls[5], ls[6]]
+            okk = keptl == want_kept and len(enth) == len(want_kept)
+            ctx.ob(okk, Finding("C19.E-whittaker", fi.where, f"whittaker|{mname}|kept-set",
+                                f"model pressures {[str(pmap[x]) for x in ls]} (p_c = 100, p_sat = 50): the loadings kept are {keptl}; required exactly those "
+                                f"with 0 <= p <= min(p_c, p_sat) (only p < 0, p > p_c, p > p_sat omit a loading): {want_kept}, each with one enthalpy (got {len(enth)})"),
+                   nontrivial_key=("whittaker", mname, "kept-set"))
+            if not okk:
+                continue
+            for l_, e_ in zip(keptl, enth):
+                th = l_ / nm
+                want_l = (RT * sp.log(sp.Integer(50) / b**(1 / t_) * (th**t_ / (1 - th**t_))**((t_ - 1) / t_)) +
+                          sp.Function("hvap")(sp.Max(pmap[l_], sp.Integer(15))) * 1000 + RT) / 1000
+                verdict, wit = decide_zero(e_ - want_l, symbols_domain={str(l_): (sp.Rational(1, 10), sp.Rational(4, 10)), "n_m": (1, 2), "t": (sp.Rational(1, 2), sp.Rational(3, 2))})
+                ctx.ob(verdict == "zero", Finding("C19.E-whittaker", fi.where, f"whittaker|{mname}|pairing",
+                                                  f"with a loading omitted before it, the enthalpy reported for loading {l_} is not the closed form evaluated at "
+                                                  f"that loading and its own pressure {pmap[l_]} (witness {wit}): loadings and pressures / enthalpies are misaligned"),
+                       nontrivial_key=("whittaker", mname, "pairing", str(l_)))
+        ctx.floor(f"Whittaker {mname} several-loading paths inspected", nsc, 1)
         ctx.ob(nkept >= 1, Finding("C19.E-whittaker", fi.where, f"whittaker|{mname}|never-kept", "no path keeps the loading"), nontrivial_key=("kept", mname))
-        nskip_paths = sum(1 for oc in outs if oc.kind == "ok" and not oc.value["enthalpy_sorption"])
-        ctx.ob(nskip_paths == 3, Finding("C19.E-whittaker", fi.where, f"whittaker|{mname}|skip-paths={nskip_paths}",
-                                         f"expected exactly three omission paths (p < 0, p > p_c, p > p_sat); found {nskip_paths}: "
-                                         f"{[[l for l, c in oc.decisions] for oc in outs if oc.kind == 'ok' and not oc.value['enthalpy_sorption']]}"),
-               nontrivial_key=("skips", mname))
 
 
 def r_point(ctx: Ctx, model):
